@@ -182,7 +182,7 @@ EXTRA7 = {
  "C04": " Also: no function of internal/state / internal/backend permutes a slice parameter in place (request order = UID order).",
  "C15": " Also: the numbers handed to response.Search originate only from Mailbox.Search (where UID vs sequence number is decided).",
  "C20": " R20.4 now also treats a caller-supplied mailbox as possibly the recovery mailbox.",
- "C03": " Also: per-flag index writes pick their ids out of the unfiltered rows tx.GetMessagesFlags returned.",
+ "C03": " Also: per-flag index writes pick their ids out of the unfiltered rows tx.GetMessagesFlags returned; every comparison of message_flags.value with a bound parameter is COLLATE NOCASE (found and repaired a genuine defect, fix f80fe44).",
  "C05": " Also: the responder queue (State.res) receives every responder queueResponder is given, on every path.",
  "C09": " Also: only a failed parse of the file name keeps a stored entry out of List.",
  "C10": " Also: Scanner.ConsumeBytes (which prepends the look-ahead byte) is never executed twice without an advance of the scanner in between.",
